@@ -125,75 +125,21 @@ func runC09(c *ShardCtx) {
 		}
 		return g
 	}
-	// two-site family: one leaf rule inlined at two places, each next to a different
-	// neighbour the optimizer merges it with (and a sequence/class variant)
+	// two-site family and same-name label family (shared with C01 / C02)
 	{
-		lit := peg.Lit
-		leafs := []func() *peg.Expr{
-			func() *peg.Expr { return peg.Cls(false, false, "a-b") }, func() *peg.Expr { return peg.Cls(false, false, "a", "b") }, func() *peg.Expr { return peg.Cls(false, false, "a") },
-			func() *peg.Expr { return lit("a") }, func() *peg.Expr { return peg.Cls(false, true, "a-b") }, func() *peg.Expr { return lit("ab") }, func() *peg.Expr { return peg.Cls(true, false, "c") },
-		}
-		nbrs := []func() *peg.Expr{func() *peg.Expr { return lit("b") }, func() *peg.Expr { return lit("c") }, func() *peg.Expr { return peg.Cls(false, false, "c") }, func() *peg.Expr { return peg.LitI("c") }, func() *peg.Expr { return lit("bc") }}
-		inputs3 := peg.Inputs([]string{"a", "b", "c"}, 3)
 		saved := inputs
-		inputs = inputs3
-		for _, lf := range leafs {
-			for xi, x := range nbrs {
-				for yi, y := range nbrs {
-					if xi == yi {
-						continue
-					}
-					if c.Expired("two-site family") {
-						return
-					}
-					ch := func(n func() *peg.Expr, leafFirst bool) *peg.Expr {
-						if leafFirst {
-							return peg.Choice(peg.Ref("A"), n())
-						}
-						return peg.Choice(n(), peg.Ref("A"))
-					}
-					for _, lfirst := range []bool{true, false} {
-						shapes := []*peg.Grammar{
-							{Rules: []*peg.Rule{{Name: "S", Expr: peg.Seq(ch(x, lfirst), ch(y, lfirst))}, {Name: "A", Expr: lf()}}},
-							{Rules: []*peg.Rule{{Name: "S", Expr: peg.Seq(peg.Plus(ch(x, lfirst)), peg.Lit("c"), peg.Star(ch(y, lfirst)))}, {Name: "A", Expr: lf()}}},
-							{Rules: []*peg.Rule{{Name: "S", Expr: peg.Seq(peg.Ref("B"), peg.Lit("c"), peg.Ref("T"))}, {Name: "B", Expr: peg.Plus(ch(x, lfirst))}, {Name: "T", Expr: peg.Plus(ch(y, lfirst))}, {Name: "A", Expr: lf()}}},
-							{Rules: []*peg.Rule{{Name: "S", Expr: peg.Choice(peg.Seq(peg.Ref("A"), x()), peg.Seq(peg.Ref("A"), y()))}, {Name: "A", Expr: lf()}}},
-						}
-						for _, g := range shapes {
-							alts := [][]string{nil}
-							if g.Rule("B") != nil {
-								alts = append(alts, []string{"B", "T"}, []string{"A", "T"})
-							} else {
-								alts = append(alts, []string{"A"})
-							}
-							one(g, alts)
-						}
-					}
-				}
+		inputs = peg.Inputs([]string{"a", "b", "c"}, 3)
+		for _, ga := range twoSiteFamily() {
+			if c.Expired("two-site family") {
+				return
 			}
+			one(ga.g, ga.alts)
 		}
-		// same-name labels: a labelled leaf rule inlined next to an equally named label
-		terms := []func() *peg.Expr{func() *peg.Expr { return lit("a") }, func() *peg.Expr { return peg.Cls(false, false, "a", "b") }, func() *peg.Expr { return lit("b") }}
-		for _, t := range terms {
-			for _, u := range terms {
-				if c.Expired("same-name label family") {
-					return
-				}
-				leaf := func() *peg.Rule {
-					return &peg.Rule{Name: "L", Expr: peg.Action(0, peg.Seq(peg.Label("x", u()), peg.Label("y", peg.Opt(lit("c")))))}
-				}
-				for _, body := range []*peg.Expr{
-					peg.Action(0, peg.Seq(peg.Label("x", t()), peg.Ref("L"), peg.Label("z", peg.Opt(lit("b"))))),
-					peg.Action(0, peg.Seq(peg.Ref("L"), peg.Label("x", t()))),
-					peg.Action(0, peg.Seq(peg.Label("x", t()), peg.Star(peg.Ref("L")), peg.Label("y", peg.Opt(lit("a"))))),
-					peg.Action(0, peg.Seq(peg.Label("y", t()), peg.Ref("L"), peg.Ref("L"))),
-					peg.Action(0, peg.Seq(peg.Label("x", t()), peg.Label("w", peg.Ref("L")), peg.AndCode(0))),
-					peg.Choice(peg.Action(0, peg.Seq(peg.Label("x", t()), peg.Ref("L"), lit("c"))), peg.Action(0, peg.Seq(peg.Label("x", t()), peg.Ref("L")))),
-				} {
-					g := &peg.Grammar{Rules: []*peg.Rule{{Name: "S", Expr: body.Clone()}, leaf()}}
-					one(g, [][]string{nil})
-				}
+		for _, g := range sameNameLabelFamily() {
+			if c.Expired("same-name label family") {
+				return
 			}
+			one(g, [][]string{nil})
 		}
 		inputs = saved
 	}
@@ -227,6 +173,128 @@ func runC09(c *ShardCtx) {
 					g := mk(dec, 6, 3)
 					one(g, altsFor(g)[:1])
 				}
+			}
+		}
+	}
+}
+
+type grammarAlts struct {
+	g    *peg.Grammar
+	alts [][]string
+}
+
+// twoSiteFamily: one leaf rule (class with range, class, literal ...) inlined
+// at two places, each next to a DIFFERENT neighbour the optimizer merges it with.
+func twoSiteFamily() []grammarAlts {
+	lit := peg.Lit
+	var out []grammarAlts
+	leafs := []func() *peg.Expr{
+		func() *peg.Expr { return peg.Cls(false, false, "a-b") }, func() *peg.Expr { return peg.Cls(false, false, "a", "b") }, func() *peg.Expr { return peg.Cls(false, false, "a") },
+		func() *peg.Expr { return lit("a") }, func() *peg.Expr { return peg.Cls(false, true, "a-b") }, func() *peg.Expr { return lit("ab") }, func() *peg.Expr { return peg.Cls(true, false, "c") },
+	}
+	nbrs := []func() *peg.Expr{func() *peg.Expr { return lit("b") }, func() *peg.Expr { return lit("c") }, func() *peg.Expr { return peg.Cls(false, false, "c") }, func() *peg.Expr { return peg.LitI("c") }, func() *peg.Expr { return lit("bc") }}
+	for _, lf := range leafs {
+		for xi, x := range nbrs {
+			for yi, y := range nbrs {
+				if xi == yi {
+					continue
+				}
+				ch := func(n func() *peg.Expr, leafFirst bool) *peg.Expr {
+					if leafFirst {
+						return peg.Choice(peg.Ref("A"), n())
+					}
+					return peg.Choice(n(), peg.Ref("A"))
+				}
+				for _, lfirst := range []bool{true, false} {
+					shapes := []*peg.Grammar{
+						{Rules: []*peg.Rule{{Name: "S", Expr: peg.Seq(ch(x, lfirst), ch(y, lfirst))}, {Name: "A", Expr: lf()}}},
+						{Rules: []*peg.Rule{{Name: "S", Expr: peg.Seq(peg.Plus(ch(x, lfirst)), peg.Lit("c"), peg.Star(ch(y, lfirst)))}, {Name: "A", Expr: lf()}}},
+						{Rules: []*peg.Rule{{Name: "S", Expr: peg.Seq(peg.Ref("B"), peg.Lit("c"), peg.Ref("T"))}, {Name: "B", Expr: peg.Plus(ch(x, lfirst))}, {Name: "T", Expr: peg.Plus(ch(y, lfirst))}, {Name: "A", Expr: lf()}}},
+						{Rules: []*peg.Rule{{Name: "S", Expr: peg.Choice(peg.Seq(peg.Ref("A"), x()), peg.Seq(peg.Ref("A"), y()))}, {Name: "A", Expr: lf()}}},
+					}
+					for _, g := range shapes {
+						alts := [][]string{nil}
+						if g.Rule("B") != nil {
+							alts = append(alts, []string{"B", "T"}, []string{"A", "T"})
+						} else {
+							alts = append(alts, []string{"A"})
+						}
+						out = append(out, grammarAlts{g, alts})
+					}
+				}
+			}
+		}
+	}
+	return out
+}
+
+// sameNameLabelFamily: a labelled leaf rule inlined next to equally named
+// labels of the enclosing rule.
+func sameNameLabelFamily() []*peg.Grammar {
+	lit := peg.Lit
+	var out []*peg.Grammar
+	terms := []func() *peg.Expr{func() *peg.Expr { return lit("a") }, func() *peg.Expr { return peg.Cls(false, false, "a", "b") }, func() *peg.Expr { return lit("b") }}
+	for _, t := range terms {
+		for _, u := range terms {
+			leaf := func() *peg.Rule {
+				return &peg.Rule{Name: "L", Expr: peg.Action(0, peg.Seq(peg.Label("x", u()), peg.Label("y", peg.Opt(lit("c")))))}
+			}
+			for _, body := range []*peg.Expr{
+				peg.Action(0, peg.Seq(peg.Label("x", t()), peg.Ref("L"), peg.Label("z", peg.Opt(lit("b"))))),
+				peg.Action(0, peg.Seq(peg.Ref("L"), peg.Label("x", t()))),
+				peg.Action(0, peg.Seq(peg.Label("x", t()), peg.Star(peg.Ref("L")), peg.Label("y", peg.Opt(lit("a"))))),
+				peg.Action(0, peg.Seq(peg.Label("y", t()), peg.Ref("L"), peg.Ref("L"))),
+				peg.Action(0, peg.Seq(peg.Label("x", t()), peg.Label("w", peg.Ref("L")), peg.AndCode(0))),
+				peg.Choice(peg.Action(0, peg.Seq(peg.Label("x", t()), peg.Ref("L"), lit("c"))), peg.Action(0, peg.Seq(peg.Label("x", t()), peg.Ref("L")))),
+			} {
+				out = append(out, &peg.Grammar{Rules: []*peg.Rule{{Name: "S", Expr: body.Clone()}, leaf()}})
+			}
+		}
+	}
+	return out
+}
+
+// optGrammarVsReference runs g, built with the given flag sets, on the inputs
+// and compares success, flat value and action invocations with the reference.
+func optGrammarVsReference(c *ShardCtx, g *peg.Grammar, gens []core.Gen, inputs [][]byte, what string) {
+	peg.Renumber(g, 1)
+	peg.AssignArgs(g)
+	text := peg.Print(g, nil)
+	c.Res.Grammars++
+	for _, gen := range gens {
+		b := buildOrCount(c, text, gen)
+		if b == nil {
+			continue
+		}
+		for _, in := range inputs {
+			o := rtapi.RunOpts{MaxExpr: 600}
+			obs := b.Run(in, &o, nil)
+			ref := peg.Run(g, in, nil, core.RefOptions(&o, b.Flags))
+			c.Res.Evaluations++
+			if ref.Outcome != peg.OResult {
+				c.Res.Skipped++
+				continue
+			}
+			if ref.Matched {
+				c.Res.Nontrivial++
+			}
+			var diffs []string
+			switch {
+			case obs.Diverged:
+				diffs = append(diffs, "did not return")
+			case failed(obs) == ref.Matched:
+				diffs = append(diffs, fmt.Sprintf("match=%v, reference match=%v", !failed(obs), ref.Matched))
+			default:
+				if ref.Matched && obs.Flat != ref.Flat {
+					diffs = append(diffs, fmt.Sprintf("flat value %q, reference %q", obs.Flat, ref.Flat))
+				}
+				if d := core.CompareLogs(ref.Log, obs.Log, actionKey); d != "" {
+					diffs = append(diffs, d)
+				}
+			}
+			if len(diffs) > 0 {
+				c.Report(Violation{Desc: what + ": " + diffs[0], Grammar: text, Gen: gen.String(), Input: string(in), InputHex: hexOf(in), Opts: optsString(&o), Diffs: diffs}, "",
+					&ConfCase{Text: text, Gen: gen, HasState: b.Flags.HasState(), HasMemo: b.Flags.HasMemo(), Runs: []ConfRun{{Input: in, Opts: o, Obs: obs}}})
 			}
 		}
 	}
